@@ -509,12 +509,12 @@ impl Pump {
                         }
                     }
                     WStep::Flush => w.step += 1,
-                    WStep::Send(n) => {
+                    WStep::Send(n) | WStep::Write(n) => {
                         let n = n as u64;
                         // the FIN always rides on the last data chunk: quiche 0.29.3 sometimes never emits a FIN-only
                         // STREAM frame that is written after the data (its own tx log shows the frame is never built),
                         // see the report; a stream without any data necessarily ends with a FIN-only frame
-                        let is_last_send = n > 0 && !w.script.steps[w.step + 1..].iter().any(|s| matches!(s, WStep::Send(k) if *k > 0));
+                        let is_last_send = n > 0 && !w.script.steps[w.step + 1..].iter().any(|s| matches!(s, WStep::Send(k) | WStep::Write(k) if *k > 0));
                         if n == 0 {
                             w.step += 1;
                             continue 'steps;
